@@ -1,0 +1,17 @@
+//go:build verif
+
+// Contracts for package contexts, checked by /verif/govc (comment-only; compiled only with -tags verif).
+package contexts
+
+//@ func ConformsContext(reportConfig config.ReportConfiguration) types.ObjectMap
+//@   ensures [C03:frame] forall m map[string]any :: ref(m) <= old(alloc) ==> unchanged(m)
+//@   ensures [C03:fresh] ref(result) > old(alloc)
+//@   ensures [C03:schema-iri] result["reportSchema"] == box(string, reportConfig.ReportSchemaIri + "#/declarations/")
+
+//@ func DefaultValidationContext(reportConfig config.ReportConfiguration) types.ObjectMap
+//@   ensures [C03:frame] forall m map[string]any :: ref(m) <= old(alloc) ==> unchanged(m)
+//@   ensures [C03:fresh] ref(result) > old(alloc)
+//@   ensures [C03:schema-iri] result["reportSchema"] == box(string, reportConfig.ReportSchemaIri + "#/declarations/") && result["lexicalSchema"] == box(string, reportConfig.LexicalSchemaIri + "#/declarations/")
+
+//@ func DeclarationsFrom(schemaIri string) string
+//@   ensures [C03:iri] result == schemaIri + "#/declarations/"
